@@ -129,7 +129,7 @@ def answers(ev):
     return 8
 
 
-def drive(ctx, drv, args, out):
+def run_driver(ctx, drv, args, out):
     rc, so, se = ctx.run([drv] + args + ["-out", out], timeout=600, ok_codes=None)
     if rc != 0:
         m = re.search(r"panic: (.*)", se)
@@ -137,11 +137,46 @@ def drive(ctx, drv, args, out):
             fr = re.search(r"(perkeep\.org/[^\s(]+)", se[m.end():])
             if fr:
                 ctx.discrepancy("C20/driver/panic@%s" % fr.group(1), "driver died: panic: %s" % m.group(1))
-                return []
+                return None
         raise vlib.MachineryError("c20 driver failed rc=%d: %s" % (rc, se[-2000:]))
+    m = re.search(r"events=(\d+) panics=(\d+) answers=(\d+)", so)
+    if not m:
+        raise vlib.MachineryError("c20 driver printed no statistics: %s" % so[-500:])
+    return {"events": int(m.group(1)), "panics": int(m.group(2)), "answers": int(m.group(3))}
+
+
+def drive(ctx, drv, args, out):
+    if run_driver(ctx, drv, args, out) is None:
+        return []
     evs = vlib.read_ndjson(out)
     os.remove(out)
     return evs
+
+
+def drive_split(ctx, drv, args, out, n, source, workers):
+    """Large runs: the driver writes n chunk files itself (line i -> chunk i mod n), TLC validates each, and a
+    chunk is only read back here when Trace_BlobRef reported differences in it.  Returns (stats, events of
+    chunk 0, [(event, VIOL text, source)])."""
+    st = run_driver(ctx, drv, args + ["-split", str(n)], out)
+    if st is None:
+        return {"events": 0, "panics": 0, "answers": 0}, [], []
+    files = ["%s.%d" % (out, k) for k in range(n)]
+
+    def work(tf):
+        r = ctx.tlc_trace(TRACE[0], TRACE[1], tf, timeout=900, env=JVM)
+        if not r["accepted"]:
+            raise vlib.MachineryError("trace %s not fully consumed: %s" % (tf, r["out"][-1500:]))
+        return tf, r["viols"]
+    found = []
+    first = vlib.read_ndjson(files[0])
+    with ThreadPoolExecutor(max_workers=workers) as ex:
+        for tf, viols in ex.map(work, files):
+            if viols:
+                evs = first if tf == files[0] else vlib.read_ndjson(tf)
+                for line, text in viols:
+                    found.append((evs[line - 1], text, source))
+            os.remove(tf)
+    return st, first, found
 
 
 def negative_samples(ctx, strs, pairs, hashes):
@@ -215,11 +250,13 @@ def run(ctx, replay):
         if len(strs_in) != want or len(set(tuple(x["s"]) for x in strs_in)) != want:
             raise vlib.MachineryError("string enumeration incomplete: %d of %d" % (len(strs_in), want))
         sf = ctx.path("strs.jsonl")
-        vlib.write_jsonl(sf, [{"s": x["s"]} for x in strs_in])
-        evs = drive(ctx, drv, ["-strings", sf], ctx.path("o_str.ndjson"))
-        if len(evs) != len(strs_in):
-            raise vlib.MachineryError("driver dropped strings: %d/%d" % (len(evs), len(strs_in)))
-        return strs_in, evs, validate_all(ctx, [(evs, "str", 6 if quick else 16, dict(src, leg="G-strings"))], workers=6 if quick else 10)
+        with open(sf, "w") as f:
+            f.write("".join('{"s":%s}\n' % json.dumps(x["s"], separators=(",", ":")) for x in strs_in))
+        st, first, found = drive_split(ctx, drv, ["-strings", sf], ctx.path("o_str.ndjson"), 6 if quick else 16,
+                                       dict(src, leg="G-strings"), 6 if quick else 10)
+        if st["events"] != len(strs_in):
+            raise vlib.MachineryError("driver dropped strings: %d/%d" % (st["events"], len(strs_in)))
+        return strs_in, st, first, found
 
     def pipe_pairs():
         pairs_in = ctx.tlc_gen("BlobRefGen", "BlobRefGen.cfg", overrides={"Mode": '"pair"'}, tag="PAIR")
@@ -242,7 +279,7 @@ def run(ctx, replay):
         f_a, f_b, f_c = ex.submit(pipe_strings), ex.submit(pipe_pairs), ex.submit(pipe_fuzz)
         f_s.result()
         f_sens.result()
-        strs_in, e_str, v_str = f_a.result()
+        strs_in, st_str, e_str, v_str = f_a.result()     # e_str: the strings of chunk 0 only (every 6th / 16th string)
         pairs_in, e_pair, v_pair = f_b.result()
         fuzz_all, e_fuzz, v_fuzz = f_c.result()
     classes = {}
@@ -256,7 +293,7 @@ def run(ctx, replay):
     ctx.count("G", strings=len(strs_in), pair_cases=len(pairs_in), **{"class_" + k.replace("+", "_"): v for k, v in classes.items()})
     for c in pairs_in:
         ctx.distinct("p:" + json.dumps(c, sort_keys=True))
-    ctx.log("driver: %d string lines, %d pair lines, %d fuzz lines" % (len(e_str), len(e_pair), len(e_fuzz)))
+    ctx.log("driver: %d string lines, %d pair lines, %d fuzz lines" % (st_str["events"], len(e_pair), len(e_fuzz)))
     if any(e["ev"] == "pairfail" for e in e_pair):
         bad = next(e for e in e_pair if e["ev"] == "pairfail")
         ctx.discrepancy("C20/pair/supported/parse/t->f", "a concretised supported ref does not parse: %r / %r" % (text_of(bad["ta"]), text_of(bad["tb"])),
@@ -276,16 +313,16 @@ def run(ctx, replay):
     for ev, text, s in found:
         classify(ctx, ev, text, s)
     nv = len(found)
-    ctx.log("T: %d lines validated by Trace_BlobRef, %d with differences" % (len(e_str) + len(e_pair) + len(e_fuzz), nv))
+    total = st_str["events"] + len(e_pair) + len(e_fuzz)
+    ctx.log("T: %d lines validated by Trace_BlobRef, %d with differences" % (total, nv))
     negative_samples(ctx, e_str, e_pair + f_pairs, f_hash)
-    total = len(e_str) + len(e_pair) + len(e_fuzz)
     ctx.count("T", lines=total, lines_with_differences=nv, fuzz_lines=len(e_fuzz),
-              panics_recovered=sum(1 for e in e_str + e_pair + e_fuzz if e.get("panic")))
+              panics_recovered=st_str["panics"] + sum(1 for e in e_pair + e_fuzz if e.get("panic")))
     for e in e_fuzz:
         if e["ev"] == "str" and e["obs"]["parse"] == "t":
             ctx.distinct("s:" + text_of(e["s"]))
     ctx.cov["traces_validated_against_impl"] = total
-    ctx.cov["evaluations"] = sum(answers(e) for e in e_str + e_pair + e_fuzz)
+    ctx.cov["evaluations"] = st_str["answers"] + sum(answers(e) for e in e_pair + e_fuzz)
     ctx.cov["exhaustive"] = True
     ctx.cov["rule"] = ("all %d strings of length <= %d over {a,g,z,0,9,-,A} (TLC BFS; %s), each through 15 entry-point/round-trip "
                        "answers and, when well-formed, HasPrefix/EqualString on every prefix, altered prefix and extension; all %d "
